@@ -257,7 +257,11 @@ macro_rules! typed_load_check {
             for j in 0..n {
                 let x: $int = if !pool.is_empty() && rng.chance(1, 5) { pool[rng.below(pool.len() as u64) as usize] } else { crate::kt::int_sample(rng) as $int };
                 pool.push(x);
-                let v = format!("{x}#{j}").into_bytes();
+                let mut v = format!("{x}#{j}").into_bytes();
+                if j % 4 == 1 {
+                    // (every fourth value is large: the map will have freed slots of the shared first-fit list when it is empty)
+                    v.resize(1100 + (j % 700), b'.');
+                }
                 items.push((<$kt>::from(&x), v.clone()));
                 model.insert(x, v);
             }
@@ -291,7 +295,75 @@ macro_rules! typed_load_check {
             if l != 0 || m.iter().next().is_some() {
                 return Err(format!("{}: every integer deleted once after a put_from_iter load, yet len() is {l} / iteration still yields entries", $label));
             }
+            // a batch lookup that lists integers twice returns the value at every occurrence
+            {
+                let sample: Vec<$int> = model.keys().take(40).cloned().collect();
+                let mut batch: Vec<$int> = Vec::new();
+                for (j, x) in sample.iter().enumerate() {
+                    batch.push(*x);
+                    if j % 3 == 0 {
+                        batch.push(sample[j / 2]);
+                    }
+                }
+                if !batch.is_empty() {
+                    // (the map is empty again at this point: refill the sample first)
+                    for x in sample.iter() {
+                        m.put(x, format!("{x}").as_bytes()).map_err(|e| e.to_string())?;
+                    }
+                    let refs: Vec<&$int> = batch.iter().collect();
+                    let got = m.bulk_get(&refs).map_err(|e| e.to_string())?;
+                    for (x, g) in batch.iter().zip(got.iter()) {
+                        if g.as_deref() != Some(format!("{x}").as_bytes()) {
+                            return Err(format!("{}: bulk_get of a batch that lists integers twice returns {:?} for {x}", $label, g.as_ref().map(|b| String::from_utf8_lossy(b).to_string())));
+                        }
+                    }
+                    for x in sample.iter() {
+                        let _ = m.delete(x).map_err(|e| e.to_string())?;
+                    }
+                }
+            }
+            // the emptied map (it has held and freed slots of all sizes, large ones too) is dropped, opened again and
+            // refilled with large and empty values: every integer still has its own entry
+            drop(m);
+            drop(db);
+            let ints2: Vec<$int> = (0..120).map(|_| crate::kt::int_sample(rng) as $int).collect();
+            let refill = crate::session::guarded(crate::session::STEP_BUDGET_BASE, || -> Result<(), String> {
+                let rng = &mut Rng::new(ints2.len() as u64);
+                let db = abyssiniandb::open_file(&dir).map_err(|e| e.to_string())?;
+                let mut m = db.$open("ints", Cfg::small(8).params()).map_err(|e| e.to_string())?;
+                let mut model2: BTreeMap<$int, Vec<u8>> = BTreeMap::new();
+                let ints: Vec<$int> = ints2.clone();
+                let _ = rng;
+                for (j, x) in ints.iter().enumerate() {
+                    let v = crate::util::gen_bytes([1100usize, 1400, 3000, 0, 1024][j % 5], j as u32, 0);
+                    m.put(x, &v).map_err(|e| e.to_string())?;
+                    model2.insert(*x, v);
+                }
+                for (j, x) in ints.iter().enumerate().filter(|(j, _)| j % 4 == 1) {
+                    let v = if j % 8 == 1 { Vec::new() } else { crate::util::gen_bytes(2000, 7, 0) };
+                    m.put(x, &v).map_err(|e| e.to_string())?;
+                    model2.insert(*x, v);
+                }
+                for (x, v) in model2.iter() {
+                    if m.get(x).map_err(|e| e.to_string())?.as_ref() != Some(v) {
+                        return Err(format!("{}: a map emptied, reopened and refilled: get({x}) returns the entry of another integer / a wrong value", $label));
+                    }
+                }
+                if m.len().map_err(|e| e.to_string())? != model2.len() as u64 {
+                    return Err(format!("{}: a map emptied, reopened and refilled: len() disagrees with the number of distinct integers", $label));
+                }
+                drop(m);
+                drop(db);
+                Ok(())
+            });
+            match refill {
+                crate::session::Guard::Ok(Ok(())) => {}
+                crate::session::Guard::Ok(Err(e)) => return Err(e),
+                crate::session::Guard::Hang(e) | crate::session::Guard::Panic(e) => return Err(format!("{}: a map emptied, reopened and refilled: a call died: {e}", $label)),
+            }
             ctx.count("typed_bulk_loads", 1);
+            let db = abyssiniandb::open_file(&dir).map_err(|e| e.to_string())?;
+            let m = db.$open("ints", Cfg::small(8).params()).map_err(|e| e.to_string())?;
             drop(m);
             drop(db);
             let _ = std::fs::remove_dir_all(&dir);
